@@ -27,7 +27,7 @@ const c09SchedulesPerScenario = 24
 
 func (c09) Runs(tier string) int {
 	if tier == "thorough" {
-		return 1200000
+		return 3000000
 	}
 	return 24000
 }
